@@ -56,6 +56,17 @@ class Protocol(Component):
             if getattr(args[0], 'node_call_id', False) is not False:
                 self.send_result(source_event.node_call_id, source_event.value)
 
+    @handler('exception', channel='*', priority=100)
+    def error_handler(self, error_type, error, traceback, handler=None, fevent=None):
+        if getattr(fevent, 'node_protocol', None) is self:
+            # a handler of a remote event failed: there will be no
+            # success event, tell the caller (who is waiting) about it
+            fevent.node_protocol = None
+            value = Value(fevent, self)
+            value.value = f'{error_type.__name__}: {error}'
+            value.errors = True
+            self.send_result(fevent.node_call_id, value)
+
     def send(self, event):
         if self.__send_event_firewall and not self.__send_event_firewall(event, self.__sock):
             yield Value(event, self)
